@@ -186,6 +186,27 @@ def flatStep (ltM ltS : Int → Int → Bool) (m : FMap) (s : FSet) (ws : List S
       -- copy construction / copy assignment / move of the whole map (defaulted members): the map is unchanged
       if ws = ["mcopy"] then some (m, s, "10", none, none)
       -- operator== / != against a map rebuilt through operator[] in reverse order
+      -- the remaining interface of flat_map / flat_set / flat_map_view / ctrdtr.h (correspondence only):
+      -- forward | reverse iteration | consistency flag
+      else if ws = ["mmisc"] then
+        let sh := fun (l : List (Int × Int)) => if l.isEmpty then "-" else ",".intercalate (l.map fun (k, v) => s!"{k}>{v}")
+        some (m, s, sh m.st ++ "|" ++ sh m.st.reverse ++ "|1", none, none)
+      else if ws = ["smisc"] then some (m, s, s!"{s.st.length},{s.st.length}", none, none)
+      else if ws.head? = some "ctrdtr" then
+        match ws with
+        | [_, x] => some (m, s, s!"{x},{x},{x},1", none, none)
+        | _ => none
+      else if ws.head? = some "mview" then
+        match ws with
+        | [_, x] =>
+          -- flat_map_view over {1>0, 4>10, 7>20, 10>30}: linear find with KeyEqual
+          let arr : List (Int × Int) := [(1, 0), (4, 10), (7, 20), (10, 30)]
+          match x.toInt? with
+          | none => none
+          | some k =>
+            let i := arr.findIdx (fun p => p.1 == k)
+            some (m, s, (match arr[i]? with | some p => s!"{i}>{p.2}" | none => "end") ++ ",4,4", none, none)
+        | _ => none
       else if ws = ["meq"] then
         let c := m.rebuiltRev ltM
         some (m, s, (if c.eqStorage m then "1" else "0") ++ (if c.eqStorage m then "0" else "1"), none, none)
